@@ -47,9 +47,12 @@ class Later(Ty):
 # MembershipProtocol._apply_updates: for update in updates
 # while the first L.i updates of a gossip list have been applied: every member record made a legal step, and
 # the only deaths / new suspicions are the ones an applied update asked for
-# (ghost witness g_cause[name] = the update that last set name's state: keeps the invariants free of `exists`)
+# (ghost witness g_cause[name] = position of the update that last set name's state: keeps the invariants free of
+#  `exists`; g_pos = position of the update being applied)
+ghost(F_MEM, "MembershipProtocol._apply_updates", "", "self.g_pos = -1", where="entry")
+ghost(F_MEM, "MembershipProtocol._apply_updates", "member_name = update.get('member')", "self.g_pos = self.g_pos + 1", where="before")
 for _pat in ("info.state = MemberState.SUSPECT", "info.state = MemberState.DEAD", "info.state = MemberState.ALIVE"):
-    ghost(F_MEM, "MembershipProtocol._apply_updates", _pat, "self.g_cause[member_name] = update")
+    ghost(F_MEM, "MembershipProtocol._apply_updates", _pat, "self.g_cause[member_name] = self.g_pos")
 
 
 def gossip_facts(o0, o1, seq_t):
@@ -58,19 +61,76 @@ def gossip_facts(o0, o1, seq_t):
         ("every-member-made-a-legal-step", members_rel(o0, step_ok)),
         ("deaths-only-as-announced-by-an-applied-update", members_rel(o0, lambda a, b: implies(
             (st(b) == DEAD) & (st(a) != DEAD), caused(o1, seq_t, a.name, "dead", a.incarnation)))),
-        ("new-suspicions-only-of-alive-members-as-announced", members_rel(o0, lambda a, b: implies(
-            (st(b) == SUSPECT) & (st(a) != SUSPECT), (st(a) == ALIVE) & caused(o1, seq_t, a.name, "suspect", a.incarnation)))),
-        ("dead-members-only-revived-to-alive", members_rel(o0, lambda a, b: implies((st(a) == DEAD) & (st(b) != DEAD), st(b) == ALIVE))),
+        ("new-suspicions-only-as-announced-by-an-applied-update", members_rel(o0, lambda a, b: implies(
+            (st(b) == SUSPECT) & (st(a) != SUSPECT), caused(o1, seq_t, a.name, "suspect", a.incarnation)))),
     ]
 
 
 GOSSIP_NAMES = ["every-member-made-a-legal-step", "deaths-only-as-announced-by-an-applied-update",
-                "new-suspicions-only-of-alive-members-as-announced", "dead-members-only-revived-to-alive"]
+                "new-suspicions-only-as-announced-by-an-applied-update"]
 GOSSIP_INV = [(n, (lambda L, i=i: gossip_facts(L.old(L.self), L.self, seq_term(L.seq))[i][1]))
-              for i, n in enumerate(GOSSIP_NAMES)] + [("members-well-formed", lambda L: members_well_formed(L.self))]
-GOSSIP_MODIFIES = MEMBER_STATE + [("MembershipProtocol", "g_cause")]
+              for i, n in enumerate(GOSSIP_NAMES)] + [("members-well-formed", lambda L: members_well_formed(L.self)),
+                                                       ("ghost-position-is-the-loop-index", lambda L: L.self.g_pos == L.i - 1)]
+GOSSIP_MODIFIES = MEMBER_STATE + [("MembershipProtocol", "g_cause"), ("MembershipProtocol", "g_pos")]
 loop(F_MEM, "MembershipProtocol._apply_updates", 1, modifies=GOSSIP_MODIFIES, elem=Later(lambda: UPD),
      types={"update": lambda: UPD}, inv=GOSSIP_INV)
+
+# ---- lists of member names are modelled as Vec(Str) (array + length): index facts instantiate well
+from pyvc.vec import Vec, SymVec  # noqa: E402
+
+NAMES = Vec(Str)
+
+
+def vlen(x):
+    return len(x) if isinstance(x, list) else slen(x)
+
+
+def vec_all(x, pred):
+    """pred(raw element term) for every element of a list of names (python list at a loop entry, SymVec later)"""
+    if isinstance(x, list):
+        return all_of(*[pred(Str.unwrap(e)) for e in x])
+    arr = x.arr()
+    return forall(Int, lambda j: implies((0 <= j) & (j < slen(x)), pred(z3.Select(arr, j.t))), "j")
+
+
+def probeable(o, kt):
+    """the name (raw term) is a member of o that is not reported DEAD"""
+    mt = field_term(o, "_members")
+    info = ObjProxy(z3.Select(MEMBERS.dt.val(mt), kt), MemberInfo, o._frozen)
+    return mk_bool(z3.Select(MEMBERS.dt.dom(mt), kt)) & (st(info) != DEAD)
+
+
+# MembershipProtocol._next_probe_target: alive = [name for name in self._probe_order if <member and not DEAD>]
+loop(F_MEM, "MembershipProtocol._next_probe_target", "comp1", types={"alive": NAMES}, inv=[
+    ("candidates-are-non-dead-members", lambda L: vec_all(L.alive, lambda kt: probeable(L.self, kt))),
+    ("no-candidate-only-if-none-seen", lambda L: implies(vlen(L.alive) == 0, forall(Int, lambda j: implies(
+        (0 <= j) & (j < L.i), Not(probeable(L.self, L.seq[j.t]))), "j"))),
+    ("at-most-one-candidate-per-visited-name", lambda L: vlen(L.alive) <= L.i)])
+
+# MembershipProtocol._handle_indirect_ping: delegates = [name for name in self._members if <other and not DEAD>]
+loop(F_MEM, "MembershipProtocol._handle_indirect_ping", "comp1", types={"delegates": NAMES}, inv=[
+    ("delegates-are-other-non-dead-members", lambda L: vec_all(L.delegates, lambda kt: probeable(L.self, kt)
+                                                                & mk_bool(kt != Str.unwrap(L.target_name))))])
+
+# MembershipProtocol._handle_indirect_ping: for delegate_name in delegates  (one indirect ping each)
+RELAY_MODIFIES = [("MembershipProtocol", "_indirect_probes_sent"), ("MembershipProtocol", "_pending_updates"),
+                  ("MembershipProtocol", "_updates_disseminated")]
+loop(F_MEM, "MembershipProtocol._handle_indirect_ping", 1, modifies=RELAY_MODIFIES,
+     types={"events": lambda: Seq(Ref(Event)), "delegate_name": Str}, inv=[
+    ("delegates-are-members", lambda L: vec_all(L.delegates, lambda kt: probeable(L.self, kt))),
+    ("one-relay-request-per-visited-delegate", lambda L: (L.self._indirect_probes_sent == L.old(L.self)._indirect_probes_sent + L.i)
+        & (vlen(L.events) == L.i)),
+    ("gossip-counter-only-grows", lambda L: L.self._updates_disseminated >= L.old(L.self)._updates_disseminated)])
+
+# MembershipProtocol._handle_probe_tick: for info in self._members.values()  (phi check of every member)
+TICK_MODIFIES = [("MemberInfo", "state"), ("MemberInfo", "state_change_time"), ("MembershipProtocol", "_pending_updates")]
+loop(F_MEM, "MembershipProtocol._handle_probe_tick", 1, modifies=TICK_MODIFIES, types={"info": lambda: Ref(MemberInfo)}, inv=[
+    ("visited-alive-members-past-the-phi-threshold-are-suspected", lambda L: forall(Str, lambda k: implies(
+        contains(L.visited, k) & is_member(L.self, k), past_threshold_handled(L.old(L.self), L.self, k, L.now_s)), "k")),
+    ("unvisited-members-untouched", lambda L: forall(Str, lambda k: implies(
+        Not(contains(L.visited, k)) & is_member(L.self, k), st(member(L.self, k)) == st(member(L.old(L.self), k))), "k")),
+    ("a-tick-only-turns-alive-into-suspect", lambda L: members_rel(L.old(L.self), tick_step)),
+    ("members-well-formed", lambda L: members_well_formed(L.self))])
 
 from specs.common import *  # noqa: E402,F401
 
@@ -89,17 +149,34 @@ PROPERTY = {
         "detector configuration in its documented range: max_sample_size >= 1, min_std > 0",
         "phi is queried at times not earlier than the last heartbeat (heartbeat stamps and query times are readings "
         "of the one monotone simulation clock) - precondition of the relational phi-monotonicity check",
+        "member names are non-empty strings (an empty sender name is falsy in _handle_ack/_handle_suspicion_timeout) and "
+        "a node is not a member of its own table; every member is stored under its own name (add_member)",
+        "a node and its network are attached to the same simulation: they read the same clock",
+        "protocol configuration in its documented range: probe_interval > 0, suspicion_timeout >= 0",
+        "Network.send as a callee: the returned event is some event object carrying exactly the verified fields "
+        "(contract of Network.send proved in this check; freshness of the object is not used)",
+        "_apply_updates as a callee writes only MemberInfo.state / MemberInfo.incarnation (its only writes are inside "
+        "loop 1 whose modifies list is checked)",
+        "random.shuffle permutes its argument in place (same length, same elements); which permutation is arbitrary",
     ],
 }
 
 # ============================================================================ A. phi-accrual detector
+def _also_at_successor(j):
+    """proof hint (always True): when j is the skolem constant of a goal, the assumed index facts are also
+    instantiated at j+1 (the window slides by one: sample j of the new window is sample j+1 of the old one)"""
+    if _ctx.active() and z3.is_const(j.t) and str(j.t).startswith("sk_"):
+        _ctx.cur().note_term(j.t + 1)
+    return True
+
+
 SAMPLES = Seq(Real)
 cls(PhiAccrualDetector, fields={"_threshold": Real, "_max_sample_size": Int, "_min_std": Real,
                                 "_intervals": SAMPLES, "_last_heartbeat": Opt(Real), "_heartbeat_count": Int},
     const=["_threshold", "_max_sample_size", "_min_std"],
     inv=[("config-in-range", lambda o: (o._max_sample_size >= 1) & (o._min_std > 0)),
          ("window-bounded", lambda o: slen(o._intervals) <= o._max_sample_size),
-         ("samples-positive", lambda o: forall(Int, lambda j: implies(
+         ("samples-positive", lambda o: forall(Int, lambda j: _also_at_successor(j) and implies(
              (0 <= j) & (j < slen(o._intervals)), mk_bool(seq_term(o._intervals)[j.t] > 0)), "j")),
          ("count-nonneg", lambda o: o._heartbeat_count >= 0)])
 
@@ -126,25 +203,39 @@ def _hb_window(s):
     return mk_bool(z3.If(num(gap) > 0, w1 == z3.If(full, z3.Extract(app, 1, z3.Length(app) - 1), app), w1 == w0))
 
 
-fn(PhiAccrualDetector, "heartbeat", args={"timestamp_s": Real}, ensures=[
+fn(PhiAccrualDetector, "heartbeat", args={"timestamp_s": Real},
+   modifies=["_intervals", "_last_heartbeat", "_heartbeat_count"], ensures=[
     ("last-heartbeat-is-this-one", lambda s: (s.self._last_heartbeat is not None) and (s.self._last_heartbeat == s.timestamp_s)),
     ("counted-once", lambda s: s.self._heartbeat_count == s.old(s.self)._heartbeat_count + 1),
     ("window-slides-by-one-positive-gap", _hb_window)])
 
 
-def phi_spec(o, now):
-    """phi as the statement defines it: 0 without history or before the last heartbeat, otherwise
-    -log10(P(silence > elapsed)) under a normal model of the gaps, with std floored at min_std (raw term)"""
-    last = o._last_heartbeat
-    w = seq_term(o._intervals)
-    std = STD_OF(w)
-    sd = z3.If(std >= num(o._min_std), std, num(o._min_std))
+def phi_raw(w, last, min_std, now):
+    """phi as the statement defines it, for a silence of now - last: -log10(P(gap > silence)) under a normal model
+    of the gaps w, with the std floored at min_std (all arguments and the result are raw z3 terms)"""
     import math
+    std = STD_OF(w)
+    sd = z3.If(std >= min_std, std, min_std)
     erfc = z3.Function("math_erfc", z3.RealSort(), z3.RealSort())
     log10 = z3.Function("math_log10", z3.RealSort(), z3.RealSort())
-    y = (num(now) - num(last) - MEAN_OF(w)) / sd
+    y = (now - last - MEAN_OF(w)) / sd
     p = num(0.5) * erfc(y / num(math.sqrt(2)))      # the float constants exactly as the code reads them
     return -log10(p)
+
+
+def phi_spec(o, now):
+    """phi of detector view o at time now, given a last heartbeat exists"""
+    return phi_raw(seq_term(o._intervals), num(o._last_heartbeat), num(o._min_std), num(now))
+
+
+def avail_term(det, now):
+    """raw Bool term: detector view det reports 'available' at time now (phi below the threshold; phi is 0
+    without a heartbeat, without samples, or before the last heartbeat)"""
+    od = Opt(Real).dt
+    lt, w = field_term(det, "_last_heartbeat"), field_term(det, "_intervals")
+    thr, mn = field_term(det, "_threshold"), field_term(det, "_min_std")
+    quiet = z3.Or(od.is_none(lt), z3.Length(w) < 1, num(now) - od.val(lt) < 0)
+    return z3.If(quiet, 0 < thr, phi_raw(w, od.val(lt), mn, num(now)) < thr)
 
 
 def ite_b(c, a, b):
@@ -170,15 +261,10 @@ fn(PhiAccrualDetector, "phi", args={"now_s": Real}, uses=STATS, ensures=[
 
 
 def _avail_post(s):
-    last = s.self._last_heartbeat
-    if last is None:
-        return iff(s.result, 0 < s.self._threshold)
-    quiet = (slen(s.self._intervals) < 1) | (s.now_s - last < 0)
-    return ite_b(quiet, iff(s.result, 0 < s.self._threshold),
-                 iff(s.result, mk_bool(phi_spec(s.self, s.now_s) < num(s.self._threshold))))
+    return iff(s.result, mk_bool(avail_term(s.self, s.now_s)))
 
 
-fn(PhiAccrualDetector, "is_available", args={"now_s": Real}, uses=STATS, ensures=[
+fn(PhiAccrualDetector, "is_available", args={"now_s": Real}, uses=STATS, returns=Bool, modifies=[], ensures=[
     ("available-iff-phi-below-threshold", _avail_post),
     ("pure", lambda s: unchanged(s, s.self))])
 
@@ -467,9 +553,10 @@ ACKS = Map(Str, Ref(Event))
 cls(MembershipProtocol, fields={
     "_network": Ref(Network), "_probe_interval": Real, "_suspicion_timeout": Real, "_indirect_probe_count": Int,
     "_phi_threshold": Real, "_members": MEMBERS, "_incarnation": Int, "_pending_updates": UPDATES,
-    "_probe_order": Seq(Str), "_probe_index": Int, "_pending_acks": ACKS, "_probes_sent": Int,
+    "_probe_order": NAMES, "_probe_index": Int, "_pending_acks": ACKS, "_probes_sent": Int,
     "_indirect_probes_sent": Int, "_acks_received": Int, "_updates_disseminated": Int},
-    ghost={"g_cause": Map(Str, UPD)},       # the gossip update that last set a member's state (witness only)
+    # witnesses only: position (in the list being applied) of the gossip update that last set a member's state
+    ghost={"g_cause": Map(Str, Int), "g_pos": Int},
     const=["_network", "_probe_interval", "_suspicion_timeout", "_indirect_probe_count", "_phi_threshold"])
 
 
@@ -497,6 +584,8 @@ def in_state(info, frozen):
 PROTO_INV = [
     ("members-keyed-by-their-name", lambda o: forall(Str, lambda k: implies(is_member(o, k), member(o, k).name == k), "k")),
     ("not-a-member-of-itself", lambda o: Not(is_member(o, o.name))),
+    ("member-names-nonempty", lambda o: Not(is_member(o, ""))),         # configuration assumption (listed)
+    ("one-simulation-clock", lambda o: same(o._network._clock, o._clock)),   # environment assumption (listed)
     ("timing-configuration-positive", lambda o: (o._probe_interval > 0) & (o._suspicion_timeout >= 0)),
     ("probe-index-nonneg", lambda o: o._probe_index >= 0),
     ("members-well-formed", lambda o: members_well_formed(o)),
@@ -525,17 +614,18 @@ def names(u, name, state):
                   U.f_state(u) == z3.StringVal(state))
 
 
-CAUSE = Map(Str, UPD)
+CAUSE = Map(Str, Int)
 
 
 def caused(o, seq_t, name, state, inc0):
-    """one of the updates seq_t (raw sequence term) announces `state` for `name` with an incarnation >= inc0;
-    the witness is the ghost record o.g_cause[name]"""
+    """one of the updates seq_t (raw sequence term) applied so far announces `state` for `name` with an
+    incarnation >= inc0; the witness is its position, the ghost value o.g_cause[name]"""
     g = field_term(o, "g_cause")
     kt = Str.unwrap(name)
-    u = z3.Select(CAUSE.dt.val(g), kt)
-    return mk_bool(z3.And(z3.Select(CAUSE.dt.dom(g), kt), names(u, name, state), upd_inc(u) >= num(inc0),
-                          z3.Contains(seq_t, z3.Unit(u))))
+    j = z3.Select(CAUSE.dt.val(g), kt)
+    u = seq_t[j]
+    return mk_bool(z3.And(z3.Select(CAUSE.dt.dom(g), kt), 0 <= j, j <= num(o.g_pos), j < z3.Length(seq_t),
+                          names(u, name, state), upd_inc(u) >= num(inc0)))
 
 
 # ---- M1: the per-member state machine, as a relation between two heap states of one member record
@@ -627,6 +717,344 @@ def gossip_clauses(updates_of):
     return [(n, (lambda s, i=i: gossip_facts(s.old(s.self), s.self, updates_of(s))[i][1])) for i, n in enumerate(GOSSIP_NAMES)]
 
 
-fn(MembershipProtocol, "_apply_updates", args={"updates": UPDATES},
-   ensures=gossip_clauses(lambda s: seq_term(s.updates)) + [
+def raw_seq(x):
+    """raw sequence term of a list of updates (the code's default for a message without updates is `[]`)"""
+    return UPDATES.unwrap(x) if isinstance(x, list) else seq_term(x)
+
+
+APPLY = fn(MembershipProtocol, "_apply_updates", args={"updates": UPDATES}, modifies="world",
+           ensures=gossip_clauses(lambda s: raw_seq(s.updates)) + [
     ("nothing-else-touched", lambda s: unchanged(s, s.self))])
+APPLY_UPDATES = (MembershipProtocol, "_apply_updates")
+
+
+def _frame_of_apply_updates():
+    """as a callee _apply_updates may write MemberInfo.state / .incarnation (and the ghost witnesses) of any
+    member record and nothing else: its only writes are in loop 1, whose `modifies` list is checked"""
+    touched = set(GOSSIP_MODIFIES)
+    keep = []
+    for ci in REG.classes.values():
+        for f in list(ci.fields) + list(ci.ghost):
+            if (ci.name, f) not in touched:
+                keep.append((ci.name, f))
+    return keep
+
+
+# ---- the messages of a node: metadata read the way the handlers read it (raw terms, no fork)
+def msg_from(s):
+    """(present, name) of the 'from' entry of the handled message"""
+    m = md(s.old(s.event))
+    return mhas(m, "from"), mstr(m, "from")
+
+
+def msg_updates(s):
+    m = md(s.old(s.event))
+    return z3.If(MSG.has(m, "updates"), M.f_updates(m), z3.Empty(UPDATES.sort()))
+
+
+def now_s(o):
+    return o.now.to_seconds()
+
+
+def detector_of(info, frozen=None):
+    return ObjProxy(field_term(info, "detector"), PhiAccrualDetector, frozen)
+
+
+def vouched(s):
+    """a message from member x is evidence that x is up: x is no longer merely suspected, its detector has
+    seen a heartbeat stamped now (a member already declared DEAD stays DEAD: no refutation without incarnation)"""
+    has, name = msg_from(s)
+    o0 = s.old(s.self)
+    known = has & (name != "") & is_member(o0, name)     # (member names are non-empty: '' is falsy in the code)
+    x = in_state(member(o0, name), None)
+    last = field_term(detector_of(x), "_last_heartbeat")
+    od = Opt(Real).dt
+    return implies(known, (st(x) != SUSPECT)
+                   & mk_bool(z3.And(od.is_some(last), od.val(last) == num(now_s(s.self)))))
+
+
+def ack_of(o, k):
+    kt = k.t if hasattr(k, "t") else z3.StringVal(k)
+    return ObjProxy(z3.Select(ACKS.dt.val(field_term(o, "_pending_acks")), kt), Event, o._frozen)
+
+
+def awaiting(o, k):
+    kt = k.t if hasattr(k, "t") else z3.StringVal(k)
+    return mk_bool(z3.Select(ACKS.dt.dom(field_term(o, "_pending_acks")), kt))
+
+
+def _ack_clears(s):
+    """M2: an ack from x removes x's pending deadline and cancels that timer - and no other"""
+    has, name = msg_from(s)
+    o0 = s.old(s.self)
+    hit = has & (name != "") & is_member(o0, name) & awaiting(o0, name)
+    return forall(Str, lambda k: ite_b(hit & (k == name), Not(awaiting(s.self, k)) & in_event_state(ack_of(o0, k), None)._cancelled,
+                                       iff(awaiting(s.self, k), awaiting(o0, k))
+                                       & implies(awaiting(o0, k), same(ack_of(s.self, k), ack_of(o0, k)))), "k")
+
+
+def _cancels_only(s):
+    has, name = msg_from(s)
+    o0 = s.old(s.self)
+    hit = has & (name != "") & is_member(o0, name) & awaiting(o0, name)
+    return forall(Ref(Event), lambda e: implies(Not(hit & same(e, ack_of(o0, name))),
+                                                iff(e._cancelled, in_event_state(e, s._old)._cancelled)), "e")
+
+
+def in_event_state(e, frozen):
+    return ObjProxy(e._ref, Event, frozen)
+
+
+fn(MembershipProtocol, "_handle_ack", args={"event": Ref(Event)}, uses=[APPLY_UPDATES, (PhiAccrualDetector, "heartbeat")],
+   ensures=gossip_clauses(msg_updates) + [
+    ("ack-vouches-for-its-sender", vouched),
+    ("ack-clears-exactly-the-senders-deadline", _ack_clears),
+    ("cancels-no-other-timer", _cancels_only),
+    ("counted", lambda s: s.self._acks_received == s.old(s.self)._acks_received + 1),
+    ("table-untouched", same_table)])
+
+def _no_timer_touched(s):
+    return unchanged(s, s.self, "_pending_acks") & forall(Ref(Event), lambda e: iff(e._cancelled, in_event_state(e, s._old)._cancelled), "e")
+
+
+def _ping_reply(s):
+    """a ping is answered by exactly one ack to its sender, carrying this node's name and the queued gossip
+    (list of named parts; None when the ping carries no sender)"""
+    has, name = msg_from(s)
+    o0 = s.old(s.self)
+    r = s.result
+    if len(r) == 0:
+        return [("unanswered-only-without-sender", Not(has))] + [(n, True) for n in PING_REPLY[1:]]
+    if len(r) != 1:
+        return [(n, False) for n in PING_REPLY]
+    m = md(r[0])
+    return [
+        ("unanswered-only-without-sender", has),
+        ("reply-is-an-ack-through-the-network-now", (r[0].event_type == "MembershipAck") & same(r[0].target, s.self._network)
+            & (ns(r[0].time) == now_ns(s.self))),
+        ("reply-names-this-node-and-the-pinger", mhas(m, "from", "ack_for", "source")
+            & (mstr(m, "from") == s.self.name) & (mstr(m, "source") == s.self.name) & (mstr(m, "ack_for") == name)),
+        ("reply-goes-to-the-pinging-member", mhas(m, "destination") & implies(
+            is_member(o0, name), mstr(m, "destination") == in_state(member(o0, name), None).entity.name)),
+        ("reply-carries-the-queued-gossip-once", mhas(m, "updates", "incarnation")
+            & mk_bool(M.f_updates(m) == seq_term(o0._pending_updates)) & (slen(s.self._pending_updates) == 0)),
+    ]
+
+
+PING_REPLY = ["unanswered-only-without-sender", "reply-is-an-ack-through-the-network-now", "reply-names-this-node-and-the-pinger",
+              "reply-goes-to-the-pinging-member", "reply-carries-the-queued-gossip-once"]
+
+
+fn(MembershipProtocol, "_handle_ping", args={"event": Ref(Event)},
+   uses=[APPLY_UPDATES, (PhiAccrualDetector, "heartbeat"), SEND, DRAIN],
+   ensures=gossip_clauses(msg_updates) + [
+    ("ping-vouches-for-its-sender", vouched),
+] + [(n, (lambda s, i=i: _ping_reply(s)[i][1])) for i, n in enumerate(PING_REPLY)] + [
+    ("no-deadline-or-timer-touched", _no_timer_touched),
+    ("table-untouched", same_table)])
+
+# ============================================================================ C. the probe cycle
+# ---- random.shuffle on a list of names: an arbitrary permutation, in place (trusted, listed)
+import random as _random  # noqa: E402
+import happysimulator.components.consensus.membership as _membership_mod  # noqa: E402
+
+
+class _RandomShim:
+    """`random` as seen by membership.py: shuffle() of a symbolic list of names installs an arbitrary permutation
+    (index bijection pi / its inverse); everything else, and every concrete call, is the real module"""
+
+    def __getattr__(self, n):
+        return getattr(_random, n)
+
+    def shuffle(self, x):
+        if not _ctx.active() or not isinstance(x, SymVec):
+            return _random.shuffle(x)
+        c = _ctx.cur()
+        old, n = x.arr(), x._len()
+        new = c.fresh("shuffled", old.sort())
+        tag = str(c.fresh("perm", z3.IntSort()))
+        pi = z3.Function(tag + "_to_old", z3.IntSort(), z3.IntSort())
+        inv = z3.Function(tag + "_to_new", z3.IntSort(), z3.IntSort())
+
+        def derived(t, f):
+            if getattr(c, "inst_depth", 0) > 0 and not (z3.is_app(t) and t.decl().name() in (pi.name(), inv.name())):
+                c.note_term(f(t))
+
+        def fwd(jv):
+            j = jv.t
+            derived(j, pi)
+            return implies(mk_bool(z3.And(0 <= j, j < n)), mk_bool(z3.And(
+                0 <= pi(j), pi(j) < n, z3.Select(new, j) == z3.Select(old, pi(j)), inv(pi(j)) == j)))
+
+        def bwd(iv):
+            i = iv.t
+            derived(i, inv)
+            return implies(mk_bool(z3.And(0 <= i, i < n)), mk_bool(z3.And(
+                0 <= inv(i), inv(i) < n, z3.Select(new, inv(i)) == z3.Select(old, i), pi(inv(i)) == i)))
+        c.assume_value(forall(Int, fwd, "pj"))
+        c.assume_value(forall(Int, bwd, "pi"))
+        x._loc.set(NAMES.mk(new, n))
+
+
+_membership_mod.random = _RandomShim()
+
+
+def _opt_str(v):
+    return v
+
+
+# ---- M3: who is probed next
+def _next_target_post(s):
+    r = s.result
+    if r is None:
+        # nobody to probe: no name in the probe order is a member that is not DEAD
+        po = s.old(s.self)._probe_order
+        return vec_all(po, lambda kt: Not(probeable(s.self, kt)))
+    return probeable(s.self, Str.unwrap(r))
+
+
+fn(MembershipProtocol, "_next_probe_target", returns=Opt(Str), modifies=["_probe_index", "_probe_order"], ensures=[
+    ("probes-a-member-not-reported-dead--none-only-if-there-is-none", _next_target_post),
+    ("probe-order-keeps-only-non-dead-members-when-reshuffled", lambda s: mk_bool(
+        field_term(s.self, "_probe_order") == field_term(s.old(s.self), "_probe_order"))
+        | vec_all(s.self._probe_order, lambda kt: probeable(s.self, kt))),
+    ("cursor-advances-within-the-round", lambda s: (s.self._probe_index >= 0)
+        & implies(Not(s.result is None), s.self._probe_index >= 1)),
+    ("members-untouched", lambda s: all_members(s, untouched) & same_table(s)
+        & unchanged(s, s.self, "_pending_acks", "_pending_updates"))])
+NEXT_TARGET = (MembershipProtocol, "_next_probe_target")
+
+
+# ---- the missed-ack deadline (timer 'MembershipIndirectPing' armed by the probe tick)
+def probe_target_of(s):
+    m = md(s.old(s.event))
+    return mhas(m, "probe_target"), mstr(m, "probe_target")
+
+
+def _deadline_missed(s):
+    has, t = probe_target_of(s)
+    o0 = s.old(s.self)
+    return has & is_member(o0, t) & awaiting(o0, t)
+
+
+def _missed_ack_suspects(s):
+    """the direct probe of t was not acknowledged by its deadline: t is no longer reported ALIVE.
+    (Detection must not depend on phi: phi is 0 for a member that was never heard from.)"""
+    has, t = probe_target_of(s)
+    return implies(_deadline_missed(s), st(in_state(member(s.old(s.self), t), None)) != ALIVE)
+
+
+def tick_step(a, b):
+    """untouched, or ALIVE -> SUSPECT with the same incarnation"""
+    return (a.incarnation == b.incarnation) & ((st(a) == st(b)) | ((st(a) == ALIVE) & (st(b) == SUSPECT)))
+
+
+def _only_the_probed_member(s):
+    has, t = probe_target_of(s)
+    o0 = s.old(s.self)
+    return forall(Str, lambda k: implies(is_member(o0, k), ite_b(
+        _deadline_missed(s) & (k == t), tick_step(member(o0, k), in_state(member(o0, k), None)),
+        untouched(member(o0, k), in_state(member(o0, k), None)))), "k")
+
+
+def _timer_armed(s):
+    """the suspicion timeout of t is armed: it is t's pending deadline, fires at now + suspicion_timeout at this
+    node, names t, and replaces (cancels) the deadline that just expired"""
+    has, t = probe_target_of(s)
+    o0 = s.old(s.self)
+    if isinstance(s.result, list):          # the early `return []`
+        return (len(s.result) == 0) and Not(_deadline_missed(s))
+    e = ack_of(s.self, t)
+    m = md(e)
+    return (_deadline_missed(s) & awaiting(s.self, t)
+            & (e.event_type == "MembershipSuspicionTimeout") & same(e.target, s.self) & Not(e._cancelled)
+            & (ns(e.time) == ns(s.self.now + s.self._suspicion_timeout))
+            & mhas(m, "suspect") & (mstr(m, "suspect") == t)
+            & in_event_state(ack_of(o0, t), None)._cancelled)
+
+
+def _timer_returned(s):
+    """the armed timer is handed to the scheduler (last returned event)"""
+    has, t = probe_target_of(s)
+    if isinstance(s.result, list):
+        return True
+    rt = seq_term(s.result)
+    return mk_bool(z3.And(z3.Length(rt) >= 1, z3.SubSeq(rt, z3.Length(rt) - 1, 1) == z3.Unit(ack_of(s.self, t)._ref)))
+
+
+def _other_deadlines_kept(s):
+    has, t = probe_target_of(s)
+    o0 = s.old(s.self)
+    return forall(Str, lambda k: implies(Not(_deadline_missed(s) & (k == t)),
+                                         iff(awaiting(s.self, k), awaiting(o0, k))
+                                         & implies(awaiting(o0, k), same(ack_of(s.self, k), ack_of(o0, k)))), "k")
+
+
+def pending_timers_exist(s):
+    """heap typing, stated at entry: the timers stored in _pending_acks are objects of the pre-state (the engine
+    bounds a reference by the allocation counter at the time it is READ, which is too late for a value read
+    after the handler allocated a new event)"""
+    a0 = _ctx.cur().heap.alloc
+    vals = ACKS.dt.val(field_term(s.self, "_pending_acks"))
+    return forall(Str, lambda k: mk_bool(z3.And(1 <= z3.Select(vals, k.t), z3.Select(vals, k.t) <= a0)), "k")
+
+
+fn(MembershipProtocol, "_handle_indirect_ping", args={"event": Ref(Event)}, uses=[SEND, DRAIN],
+   requires=[pending_timers_exist], ensures=[
+    ("missed-ack-deadline-means-no-longer-reported-alive", _missed_ack_suspects),
+    ("only-the-probed-member-changes--alive-to-suspect-at-most", _only_the_probed_member),
+    ("suspicion-timeout-armed-iff-the-deadline-was-missed", _timer_armed),
+    ("armed-timer-is-returned-for-scheduling", _timer_returned),
+    ("other-deadlines-kept", _other_deadlines_kept),
+    ("table-untouched", same_table)])
+
+
+# ---- the probe tick
+def past_threshold_handled(o0, o1, k, now):
+    """member k was ALIVE with phi at or above the threshold at time now => it is SUSPECT in o1"""
+    a, b = member(o0, k), member(o1, k)
+    return implies((st(a) == ALIVE) & Not(mk_bool(avail_term(detector_of(a, o0._frozen), now))), st(b) == SUSPECT)
+
+
+def _tick_detects(s):
+    o0 = s.old(s.self)
+    now = now_s(o0)
+    return forall(Str, lambda k: implies(is_member(o0, k), implies(
+        (st(member(o0, k)) == ALIVE) & Not(mk_bool(avail_term(detector_of(member(o0, k), o0._frozen), now))),
+        st(in_state(member(o0, k), None)) != ALIVE)), "k")
+
+
+def _tick_probe(s):
+    """if anyone can be probed: a ping goes to a member t not reported DEAD and t's ack deadline is armed
+    (timer at now + probe_interval/2 at this node, naming t); the next tick is always scheduled"""
+    r = s.result
+    o0 = s.old(s.self)
+    nxt = r[-1]
+    ok = ((nxt.event_type == "MembershipProbeTick") & same(nxt.target, s.self) & Not(nxt._cancelled)
+          & (ns(nxt.time) == ns(s.self.now + s.self._probe_interval)))
+    if len(r) == 1:
+        return ok & unchanged(s, s.self, "_pending_acks", "_probes_sent")
+    if len(r) != 3:
+        return False
+    ping, timer = r[0], r[1]
+    mp, mt = md(ping), md(timer)
+    t = mstr(mt, "probe_target")
+    return (ok & mhas(mt, "probe_target") & probeable(s.self, Str.unwrap(t))
+            & (ping.event_type == "MembershipPing") & same(ping.target, s.self._network)
+            & mhas(mp, "from", "destination") & (mstr(mp, "from") == s.self.name)
+            & (mstr(mp, "destination") == member(s.self, t).entity.name)
+            & (timer.event_type == "MembershipIndirectPing") & same(timer.target, s.self) & Not(timer._cancelled)
+            & (ns(timer.time) == ns(s.self.now + s.self._probe_interval * 0.5))
+            & awaiting(s.self, t) & same(ack_of(s.self, t), timer)
+            & (s.self._probes_sent == o0._probes_sent + 1))
+
+
+fn(MembershipProtocol, "_handle_probe_tick", args={"event": Ref(Event)},
+   uses=[SEND, DRAIN, NEXT_TARGET, (PhiAccrualDetector, "is_available")], requires=[pending_timers_exist], ensures=[
+    ("phi-at-or-above-threshold-means-no-longer-reported-alive", _tick_detects),
+    ("a-tick-only-turns-alive-into-suspect", lambda s: all_members(s, tick_step)),
+    ("probes-one-member-arms-its-ack-deadline-and-schedules-the-next-tick", _tick_probe),
+    ("table-untouched", same_table)])
+
+# ============================================================================ (end) frames that need every class declared
+APPLY.keeps = _frame_of_apply_updates()
